@@ -30,6 +30,9 @@ func cellRule(cell int, i int) []string {
 		sub = "bob"
 	}
 	eft := []string{"allow", "deny", "other"}[cell%3]
+	if cell%3 == 2 && i%2 == 1 {
+		eft = "" // an empty effect field is an effect that is neither allow nor deny, like any other word
+	}
 	return []string{sub, fmt.Sprintf("o%d", i), "read", eft}
 }
 
